@@ -20,7 +20,7 @@ RULE = ('corpus of (program, query, pre-existing bindings): A body trees with <=
         'After every ending EVERY live engine variable (weak set hook) must be in the binding state it had before the '
         'generator was created (internal ones unbound), the answers seen must be a prefix of RefProlog\'s, the thrown '
         'object must come back unchanged, and a second complete run on the same engine and variables must give the full '
-        'reference sequence. G bind/undo histories: every sequence of <= D operations "unify one of 10 equations" / "undo the most recent unification" with all variables looked up after every operation; after every undo every variable must be in exactly the state (including the identity of the variables its value refers to) it had before the matching unification. evaluations = endings explored; states = distinct (answer-sequence, ending) outcomes; '
+        'reference sequence. G bind/undo histories: every sequence of <= D operations "unify one of 11 equations (variable-variable links, structures, list cells with variable tails)" / "undo the most recent unification" with all variables looked up after every operation; after every undo every variable must be in exactly the state (including the identity of the variables its value refers to) it had before the matching unification. evaluations = endings explored; states = distinct (answer-sequence, ending) outcomes; '
         'non-trivial = abandoned while bindings were active (k >= 1)')
 ASSUMPTIONS = ['YLDPROLOG_VERIF=1 hook: engine.Variable registers itself in a weak set',
                'dropping a generator is followed by gc.collect() before inspection (finalisation of a dropped generator '
